@@ -4,7 +4,9 @@ import random
 from fractions import Fraction
 from props.common import bounded, known_e2e
 
-LEVEL_TEXT = ("Deductive (reals; 10^digits as an uninterpreted positive quantity): ROUNDUP/ROUNDDOWN return an integer number of units 10^-digits on "
+LEVEL_TEXT = ("[CEILING / FLOOR: for all numbers and 9 fixed dyadic significances the documented-side clause is proved (linear) and checked natively on "
+              "exact rationals.]  "
+              "Deductive (reals; 10^digits as an uninterpreted positive quantity): ROUNDUP/ROUNDDOWN return an integer number of units 10^-digits on "
               "the required side and less than one unit away for ALL numbers and digit counts; INT is the floor; SIGN; QUOTIENT is the truncated "
               "quotient with #DIV/0! for a zero divisor; EVEN/ODD are the nearest even/odd integers away from zero (ODD(0)=1, EVEN(0)=0); FACT with "
               "#NUM! for negatives; BASE validates radix 2..36 and non-negative numbers and its digit loop terminates (variant); DEC2HEX gives an "
